@@ -48,7 +48,7 @@ def findings_table():
 
 
 def levels_table():
-    rows = ['| id | level claimed | functions under a discharged contract / suites | obligations discharged (last quick run) | bounded stand-in (evaluations) |',
+    rows = ['| id | level claimed | functions under a discharged contract / suites | obligations discharged (last quick run; for exploration: the VCs named in the level text, not the property) | bounded stand-in (evaluations) |',
             '|---|---|---|---|---|']
     for pid in sorted(registry.PROPS):
         s = registry.PROPS[pid]
@@ -64,8 +64,8 @@ def levels_table():
             what.append('VC: %d functions/lemmas' % len(s['vc']))
         if s.get('sym'):
             what.append('SYM suite %s (%s identities)' % (','.join(s['sym']), sym.get('obligations', '?')))
-        rows.append('| %s | %s | %s | %s/%s | %s |' % (pid, s.get('level'), '; '.join(what) or '-', cov.get('discharged', 0) if s.get('level') == 'proof' else 0,
-                                                   cov.get('obligations', 0) if s.get('level') == 'proof' else 0,
+        rows.append('| %s | %s | %s | %s/%s | %s |' % (pid, s.get('level'), '; '.join(what) or '-', cov.get('discharged', 0),
+                                                   cov.get('obligations', 0),
                                                    cov.get('bounded', {}).get('evaluations', '-')))
     return '\n'.join(rows)
 
